@@ -1,10 +1,10 @@
 #!/bin/bash
 # usage: tools/process_seed.sh <Cxx worktree suffix> <seed-id> <tier> <checks...>
-p=$1; id=$2; tier=$3; shift 3
+p=$1; id=$2; tier=$3; shift 3; WTP=${WTPREFIX:-wt-}
 echo "######## $p -> $id"
-/verif/tools/confirm_seed.sh /tmp/wt-$p 2>&1 | grep -E "Running tests/seeded_demo|^test result|without change" | head -20
+/verif/tools/confirm_seed.sh /tmp/$WTP$p 2>&1 | grep -E "Running tests/seeded_demo|^test result|without change" | head -20
 mkdir -p /verif/seeded/$id
-git -C /tmp/wt-$p diff -- src > /verif/seeded/$id/patch.diff
-cp /tmp/wt-$p/tests/seeded_demo.rs /tmp/wt-$p/SEEDED.md /verif/seeded/$id/ 2>/dev/null
-git -C /repo worktree remove --force /tmp/wt-$p
+git -C /tmp/$WTP$p diff -- src > /verif/seeded/$id/patch.diff
+cp /tmp/$WTP$p/tests/seeded_demo.rs /tmp/$WTP$p/SEEDED.md /verif/seeded/$id/ 2>/dev/null
+git -C /repo worktree remove --force /tmp/$WTP$p
 /verif/tools/try_seed.sh /verif/seeded/$id/patch.diff $tier "$@" 2>&1 | grep -aE "^==|^failure|^OK|INCONCLUSIVE|^note" | cut -c1-420
